@@ -33,6 +33,9 @@
 (* robin, first and last only} x contents {identity inputs with duplicate   *)
 (* outputs, arbitrary 16-bit pairs with the extremes 0 / 65535}, plus one   *)
 (* entry looked up 2^16 - 1, 2^16, 2^16 + 5 (thorough: 2^17) times.          *)
+(* Tables of one scenario are pairwise different here; table identity       *)
+(* (identical tables are stored once, related tables never merge) and its   *)
+(* scenario family are in LookupTables.tla.                                  *)
 (* Also printed: the adversary catalogue of the C08 replay and its verdict  *)
 (* rule (KINDS, STRATEGIES, RULE).                                          *)
 (***************************************************************************)
@@ -150,9 +153,11 @@ Emit == Done => PrintT("REPLAY " \o ToJson(Scenario(width, params, layout)))
 (* ---------------- adversary catalogue and verdict rule of the replay ---------------- *)
 \* table_cell_unused: the output cell of an entry no lookup uses; table_and_lookup: a used entry's output cell AND the output
 \* of every lookup of that entry carry the same wrong value (Sum = LDC still holds: only the RE term rejects)
-Kinds == {"none", "out_notin", "out_other_entry", "inp_notin", "pair_other_table", "lu_slot_only", "table_cell", "table_cell_unused",
+\* api_other_input: not a corrupted assignment but the ORDINARY API (strategy "api": PartialWitness, prove, verify) with the input of a
+\* lookup into table t set to the input of a pair that only another table of the circuit has (table identity, see LookupTables.tla)
+Kinds == {"none", "api_other_input", "out_notin", "out_other_entry", "inp_notin", "pair_other_table", "lu_slot_only", "table_cell", "table_cell_unused",
           "table_and_lookup", "table_pad", "lu_pad", "mult", "noop_cell"}
-Strategies == {"plain", "zero_lookup", "zero_z", "one_z", "perturb_q0", "perturb_qlast", "ext_plain", "ext_shift"}
+Strategies == {"plain", "zero_lookup", "zero_z", "one_z", "perturb_q0", "perturb_qlast", "ext_plain", "ext_shift", "api"}
 \* sat: verdict of the satisfaction oracle (gates, copy classes, every looking slot holds a pair of ITS table, the
 \* table rows hold the table).  The oracle does not model multiplicities nor the padding slots of the table rows, so
 \* the completeness direction is asserted only for the kinds that do not touch lookup rows.
